@@ -223,7 +223,12 @@ func NewWorld(t *testing.T, kind string, tp int64, opt string) *World {
 	}
 
 	// final synchronisation: relative height 0 at tick 1, clients updated to it at tick 2
-	w.T0 = w.coord.CurrentTime.Truncate(2 * time.Second).Add(4 * time.Second)
+	// tick 0 = the next whole second: every set-up block lies in (T0-1s, T0-0.5s], i.e. "tick -1" for integer
+	// comparisons (ibctesting starts at a whole second and set-up advances 1 ms per block)
+	w.T0 = w.coord.CurrentTime.Truncate(time.Second).Add(time.Second)
+	if w.coord.CurrentTime.Sub(w.coord.CurrentTime.Truncate(time.Second)) >= 500*time.Millisecond {
+		t.Fatalf("set-up took too many blocks for the time model")
+	}
 	w.setTick(1)
 	for _, c := range []string{"A", "B"} {
 		w.ch[c].NextBlock()
